@@ -141,6 +141,21 @@ Theorem C08_notifications : forall cfg rqs ost ost' out,
 Proof. exact run_notifications. Qed.
 Print Assumptions C08_notifications.
 
+(** Response delivery is irrelevant to the ledger and its announcements: whatever each client
+    does with its response receiver (await it, drop it at once, give up before the latency has
+    elapsed — [run_b] masks the responses that are not awaited), the exchange state and the
+    notifications emitted per request are exactly those of [run] on the same requests, so by
+    [C08_notifications] every accepted order is announced by exactly one balance and one trade
+    notification and recorded, whether or not its response could be delivered. *)
+Theorem C08_notifications_independent_of_response_delivery : forall cfg brqs ost,
+  fst (run_b cfg ost brqs) = fst (run cfg ost (map fst brqs)) /\
+  map snd (snd (run_b cfg ost brqs)) = map snd (snd (run cfg ost (map fst brqs))) /\
+  map fst (snd (run_b cfg ost brqs)) =
+    map (fun x : (rrequest * bool) * (rresp * list event) => mask (snd (fst x)) (fst (snd x)))
+        (combine brqs (snd (run cfg ost (map fst brqs)))).
+Proof. exact run_b_independent. Qed.
+Print Assumptions C08_notifications_independent_of_response_delivery.
+
 (** Queries answer from the current account: a snapshot / balance query returns every asset with
     the ledger's amounts, a trade query returns the recorded fills not older than [since]. *)
 Theorem C08_queries : forall cfg st t,
